@@ -392,6 +392,13 @@ def kernel_job(args):
         st, tids = K.fresh_state(member, sizes, conc)
         r = K.run_function(fn, st)
         if r[0] != "return":
+            # the reference machine stopped (e.g. an integer out of int32): the two back ends must still agree with
+            # each other; run them in a forked child (a crash there is C05's business and is not counted here)
+            if len(methods) == 2:
+                res["evals"] += 1
+                d = _backends_agree_in_child(methods, {n: _tensor_from_raw(dd) for n, dd in conc.items()})
+                if d:
+                    res["failures"].append(f"C and LLVM differ from each other on sizes {sizes} (the IR machine stopped: {r[1]}): {d}"[:400])
             continue
         view = K.read_output(st, tids[a.target.name], member.formats[a.target.name], K.output_dims(member, sizes))
         if not view.ok:
@@ -416,6 +423,51 @@ def kernel_job(args):
         if len(res["failures"]) > 2:
             break
     return res
+
+
+def _backends_agree_in_child(methods, args_t):
+    """None when both back ends return bit-identical raw arrays (or either crashes/raises)."""
+    import pickle
+
+    sys.path.insert(0, os.path.dirname(os.path.abspath(__file__)))
+    from c09 import raw_arrays
+
+    rd, wr = os.pipe()
+    pid = os.fork()
+    if pid == 0:
+        try:
+            os.close(rd)
+            outs = {}
+            for bname, tm in methods.items():
+                modes, dims, ordering, indices, vals = raw_arrays(tm(**args_t))
+                outs[bname] = (indices, [_bits(float(x)) for x in vals])
+            msg = None
+            if outs["c"] != outs["llvm"]:
+                msg = f"llvm {outs['llvm'][0]} {[struct_unbits(b) for b in outs['llvm'][1][:6]]} vs c {outs['c'][0]} {[struct_unbits(b) for b in outs['c'][1][:6]]}"
+            os.write(wr, pickle.dumps(msg))
+        except BaseException:
+            pass
+        finally:
+            os._exit(0)
+    os.close(wr)
+    data = b""
+    while True:
+        chunk = os.read(rd, 65536)
+        if not chunk:
+            break
+        data += chunk
+    os.close(rd)
+    os.waitpid(pid, 0)
+    try:
+        return pickle.loads(data) if data else None
+    except Exception:
+        return None
+
+
+def struct_unbits(b):
+    import struct
+
+    return struct.unpack("d", b)[0] if isinstance(b, bytes) else b
 
 
 def _tensor_from_raw(d):
@@ -545,6 +597,16 @@ def check(argv):
     rng = random.Random(seed)
     n_c = 10 if tier == "quick" else 120
     c_members = set(m.key for m in rng.sample(fam, min(n_c, len(fam))))
+    # literals are where the two back ends print/convert differently: the first member of every assignment of the
+    # hand-written list that contains a literal is always compiled with both
+    import re as _re
+
+    seen_text = set()
+    for m in fam:
+        text = m.key.split(" | ")[0]
+        if text not in seen_text and _re.search(r"(?<![A-Za-z_])\d", text):
+            seen_text.add(text)
+            c_members.add(m.key)
     t0 = time.time()
     kjobs = [(m, seed, m.key in c_members) for m in fam]
     kres = []
